@@ -477,6 +477,72 @@ def gen_advanced(ctx):
                     node, data, expected)
 
 
+def _adv_wire(node, idx_py, s, a):
+    """(model query, spec query) for an advanced-index node; the model decides contiguity itself (`?`)"""
+    from pytato.array import NormalizedSlice
+    mq, sq = [], []
+    for ni, ui in zip(node.indices, idx_py):
+        if isinstance(ni, NormalizedSlice):
+            mq.append(f"(slice {ni.start} {ni.stop} {ni.step})")
+            sq.append(f"(slice {_slice_tok(ui.start)} {_slice_tok(ui.stop)} {1 if ui.step is None else ui.step})")
+        elif isinstance(ui, np.ndarray):
+            mq.append(f"(arr {ser.shape(ui.shape)})")
+            sq.append(f"(arr {ser.shape(ui.shape)} {ser.vals(ui)})")
+        else:
+            mq.append(f"(int {int(ni)})")
+            sq.append(f"(int {int(ui)})")
+    return (f"(lower advindex ? ({' '.join(mq)}) {ser.shape(s)})",
+            f"(spec advindex ? ({' '.join(sq)}) {ser.shape(s)} {ser.vals(a)})")
+
+
+def gen_advanced_exh(ctx):
+    """advanced indexing against the model (expression text + values) and NumPy: arrays of rank <= 3, EVERY
+    assignment of {index array, int (0 / -1), slice (full / 1: / ::-1 / ::2)} to the axes with one or two
+    index arrays, for every pairing of broadcastable index-array shapes of a small set (0-d, (2,), (1,), (2,1) x
+    (3,), ...); index values cycle through the whole valid range [-n, n)"""
+    import pytato as pt
+    full_shape = (3, 4, 2)
+    slices = [slice(None), slice(1, None), slice(None, None, -1), slice(None, None, 2)]
+    ints = [0, -1]
+    one = [(2,), (), (2, 3), (1,)]
+    two = [((2,), (2,)), ((2, 1), (3,)), ((1,), (2,)), ((), (2,)), ((2, 3), (3,)), ((2,), ())]
+    if ctx.thorough:
+        slices += [slice(-2, None), slice(3, 0, -2)]
+        two += [((1, 3), (2, 1)), ((2, 1), (2, 3))]
+    for r in (1, 2, 3):
+        s = full_shape[:r]
+        a = _data(s)
+        x = _ph("x", s)
+        opts = ["A"] + [("i", k) for k in ints] + [("s", sl) for sl in slices]
+        for kinds in itertools.product(opts, repeat=r):
+            apos = [d for d, k in enumerate(kinds) if k == "A"]
+            if not 1 <= len(apos) <= 2:
+                continue
+            for shp in (one if len(apos) == 1 else two):
+                shp = (shp,) if len(apos) == 1 else shp
+                idx_py, idx_pt, data = [], [], {"x": a}
+                for d, k in enumerate(kinds):
+                    if k == "A":
+                        ish = shp[apos.index(d)]
+                        n = s[d]
+                        cnt = int(np.prod(ish)) if ish else 1
+                        ia = np.array([(-n + (j * 3 + d) % (2 * n)) for j in range(cnt)], dtype=np.int64).reshape(ish)
+                        nm = f"i{d}"
+                        data[nm] = ia
+                        idx_py.append(ia)
+                        idx_pt.append(_ph(nm, ish, ia.dtype))
+                    else:
+                        idx_py.append(k[1])
+                        idx_pt.append(k[1])
+                expected = a[tuple(idx_py)]
+                node = x[tuple(idx_pt)]
+                mq, sq = _adv_wire(node, idx_py, s, a)
+                yield LCase("advindex_exh", {"shape": s, "index": repr([("arr", v.shape, v.tolist())
+                                                                        if isinstance(v, np.ndarray) else v
+                                                                        for v in idx_py])},
+                            node, data, expected, mq, sq, structural=True)
+
+
 _EINSUM_LETTERS = "ijkl"
 
 
@@ -665,7 +731,7 @@ def gen_csr(ctx):
 
 
 GENS = [gen_slice1d, gen_roll, gen_transpose, gen_reshape, gen_basic_nd, gen_stack_concat, gen_pad,
-        gen_advanced, gen_einsum, gen_einsum_exh, gen_csr]
+        gen_advanced, gen_advanced_exh, gen_einsum, gen_einsum_exh, gen_csr]
 
 
 # ---------------------------------------------------------------- processing
